@@ -30,6 +30,11 @@ IndexOK(e, n) ==
 
 Check(e) ==
     /\ IF e.unit_out # e.unit_in THEN Fail(e, "unit-differs", <<e.unit_in, e.unit_out>>) ELSE TRUE
+    \* the caller's span Quantity after the call (and after the builder it was given to before): a builder that rewrites it (another
+    \* unit, same duration) breaks nothing by itself -- a divergence note; what the next builder makes of it is judged by its clauses
+    /\ IF "span_left" \in DOMAIN e /\ e.span_left # e.span_written
+       THEN PrintT("NOTE|" \o ToString(e.tid) \o "|" \o ToString(e.seq) \o "|span-argument-rewritten-by-a-builder|" \o e.span_written
+                   \o " -> " \o e.span_left \o " (given before to: " \o e.span_used_before_by \o ")") ELSE TRUE
     /\ IF e.off_lattice THEN Fail(e, "value-is-not-a-whole-number-where-the-rule-gives-one:" \o e.fn, <<>>) ELSE TRUE
     /\ CASE e.fn = "list" -> Same(e, FromList(e.list, e.start))
          [] e.fn = "frequency" ->
